@@ -1,10 +1,10 @@
 ---- MODULE MC_C18 ----
 (* C18: feature products of the table classifier *)
 EXTENDS TableClass
-MCRows == {1, 2, 3, 5, 19, 20}
+MCRows == {1, 2, 3, 5, 19, 20, 22}
 MCCols == {1, 2, 4, 5}
 \* reduced product for the quick tier / the rule-by-rule machine
-QRows == {1, 2, 5, 6, 20}
+QRows == {1, 2, 5, 6, 20, 22}
 QCols == {1, 2, 5}
 QRoles == {"none", "presentation", "grid", "landmark"}
 QDescRoles == {"none", "tableRole"}
